@@ -342,4 +342,50 @@ def _plans_main(path):
                 why = 'partial frame left in the cache'
         if why:
             bad.append({'frame': frame, 'plan': [[g['ft'], g['ml'], g['dl'], g['F'], g['C']] for g in out], 'why': why})
+    # reassembly state belongs to ONE connection: two endpoints in one process (a server with two clients; a client and a server) that
+    # each receive a fragmented frame on the SAME stream id, their fragments arriving alternately, both reassemble their own frame
+    multi = [(frame, out) for frame, out in plans if len(out) >= 2]
+    for k in range(0, min(len(multi) - 1, 600), 2):
+        (fa, oa), (fb, ob) = multi[k], multi[k + 1]
+        P = Payloads()
+        conts = []
+        for frame in (fa, fb):
+            pid, payload = P.make(frame['dl'], frame['ml'])
+            conts.append((bytes(payload.data or b''), bytes(payload.metadata or b'')))
+        caches = [FrameFragmentCache(), FrameFragmentCache()]
+        results = [None, None]
+        why = None
+        try:
+            for i in range(max(len(oa), len(ob))):
+                for c, out in enumerate((oa, ob)):
+                    if i >= len(out):
+                        continue
+                    g = out[i]
+                    D, Mb = conts[c]
+                    f = classes[g['ft']]()
+                    f.stream_id = 9
+                    if g['ft'] in ('REQUEST_STREAM', 'REQUEST_CHANNEL'):
+                        f.initial_request_n = g['n']
+                    f.flags_follows = bool(g['F'])
+                    f.flags_complete = bool(g['C'])
+                    if g['ft'] == 'PAYLOAD':
+                        f.flags_next = bool(g['N'])
+                    f.metadata = Mb[g['moff']:g['moff'] + g['ml']]
+                    f.data = D[g['doff']:g['doff'] + g['dl']]
+                    r = caches[c].append(fr.parse_or_ignore(f.serialize()))
+                    if not g['F']:
+                        results[c] = r
+        except Exception as ex:
+            why = 'raised %s: %s' % (type(ex).__name__, ex)
+        if why is None:
+            for c, frame in enumerate((fa, fb)):
+                D, Mb = conts[c]
+                r = results[c]
+                if r is None or type(r) is not classes[frame['ft']] or bytes(r.data or b'') != D or bytes(r.metadata or b'') != Mb:
+                    why = 'connection %s did not reassemble its own frame (got %s)' % ('AB'[c], 'nothing' if r is None else '%s with %d/%d data and %d/%d metadata bytes' % (
+                        type(r).__name__, len(r.data or b''), len(D), len(r.metadata or b''), len(Mb)))
+                    break
+        if why:
+            bad.append({'frame': fa, 'plan': [[g['ft'], g['ml'], g['dl'], g['F'], g['C']] for g in oa],
+                        'why': 'two connections reassembling on the same stream id at the same time: ' + why})
     print(json.dumps(bad))
